@@ -215,7 +215,7 @@ func checkC07(w *World, tier string) *Report {
 	r := newReport("C07")
 	r.Explanation = "R7.1 (go/cfg, all paths of Call and create): SaveCall executes exactly once before every return and exactly one deferred closure calling ExitCall is registered after it and before any return or nested execution, outside loops; " +
 		"R7.2 (resolved call sites and SSA store inventory over all fork packages): CallTree.add is called only by Tracer.SaveCall, which is called only by Call and create; CallTree.exit only by Tracer.ExitCall, only from those deferred closures; the fields root/current/count/lookup of CallTree and Index/Parent/Children of Call are stored only in add/exit; " +
-		"R7.3 (SSA def-use on add and exit): count is stored once as load(count)+1; the new node's Index and the lookup key are loads of count that precede that store; Parent is the cursor loaded before the cursor is moved; lookup[count] = the new node; the append to the parent's Children is guarded by cursor != nil and appends the new node; exit moves the cursor to its Parent on every path with a non-nil cursor. R7.4 (all SSA paths of every function that stores to root, count or lookup outside the constructor): the lookup table is replaced if and only if the counter is set back to 0 on the same path (the keys of lookup stay exactly 0..count-1 across repeated top-level invocations on one EVM), and entries are never deleted. These are necessary conditions of dense indices, parent links and a closed cursor; exported SaveCall/ExitCall called by a host are outside the repository."
+		"R7.3 (SSA def-use on add and exit): count is stored once as load(count)+1; the new node's Index and the lookup key are loads of count that precede that store; Parent is the cursor loaded before the cursor is moved; lookup[count] = the new node; the append to the parent's Children is guarded by cursor != nil and appends the new node; exit moves the cursor to its Parent on every path with a non-nil cursor. R7.4 (all SSA paths of every function that stores to root, count or lookup outside the constructor): the lookup table is replaced if and only if the counter is set back to 0 on the same path (the keys of lookup stay exactly 0..count-1 across repeated top-level invocations on one EVM), and entries are never deleted. R7.5 write sets: exit stores only the outcome fields of the closing node (RemainingGas, Ret, Err) and the cursor; add stores, besides the new node's own fields, only count, root, current, the lookup entry and the parent's Children (by append) — neither un-links children nor re-parents nodes. These are necessary conditions of dense indices, parent links and a closed cursor; exported SaveCall/ExitCall called by a host are outside the repository."
 	addR71(w, r, "R7.1")
 	vmCall, vmCreate := "vm.(*EVM).Call", "vm.(*EVM).create"
 	whoMayCall(w, r, "R7.2", "CallTree.add", funcIs("CallTree", "add"), map[string]bool{"vm.(*Tracer).SaveCall": true}, false)
@@ -232,6 +232,7 @@ func checkC07(w *World, tier string) *Report {
 	r.need("R7.2", 15)
 	addR73(w, r, "R7.3")
 	addR74(w, r, "R7.4")
+	addR75(w, r, "R7.5")
 	r.Assumptions = append(r.Assumptions, "one goroutine per EVM; exported Tracer.SaveCall/ExitCall are not called by the host")
 	return r
 }
@@ -632,4 +633,61 @@ func addR74(w *World, r *Report, rule string) {
 	}
 	r.need(rule, 1)
 	_ = n
+}
+
+
+// addR75: write sets of the two tree mutators.
+func addR75(w *World, r *Report, rule string) {
+	vm := forkPath(pkVM)
+	allowed := map[string]map[string]bool{
+		"(*CallTree).exit": {"P0.Call.RemainingGas": true, "P0.Call.Ret": true, "P0.Call.Err": true, "P0.CallTree.current": true},
+		"(*CallTree).add":  {"P0.CallTree.count": true, "P0.CallTree.root": true, "P0.CallTree.current": true, "P0.Call.Children": true, "P0.CallTree.lookup": true},
+	}
+	for _, rel := range []string{"(*CallTree).add", "(*CallTree).exit"} {
+		fn := w.Func(vm, rel)
+		key := "vm." + rel + "/write-set"
+		if fn == nil {
+			r.undecided(rule, key, "-", "function not found")
+			continue
+		}
+		var bad []string
+		for _, b := range fn.Blocks {
+			for _, ins := range b.Instrs {
+				st, ok := ins.(*ssa.Store)
+				if !ok {
+					continue
+				}
+				fa, ok := st.Addr.(*ssa.FieldAddr)
+				if !ok {
+					continue
+				}
+				if _, isAlloc := fa.X.(*ssa.Alloc); isAlloc {
+					continue // the node under construction
+				}
+				id := fieldID(fa)
+				if !allowed[rel][id] {
+					bad = append(bad, "stores to "+id+" at "+w.pos(st.Pos()))
+					continue
+				}
+				if id == "P0.Call.Children" {
+					// only by appending to the list that is there
+					okApp := false
+					if c, isCall := st.Val.(*ssa.Call); isCall {
+						if bi, isB := c.Call.Value.(*ssa.Builtin); isB && bi.Name() == "append" {
+							okApp = true
+						}
+					}
+					if !okApp {
+						bad = append(bad, "replaces a node's Children (not an append) at "+w.pos(st.Pos()))
+					}
+				}
+			}
+		}
+		if len(bad) > 0 {
+			r.violated(rule, key, w.pos(fn.Pos()), strings.Join(bad, "; ")+": links between recorded nodes are changed after the fact")
+		} else {
+			r.holds(rule, key, w.pos(fn.Pos()), "stores only to its own part of the tree")
+		}
+	}
+	r.need(rule, 2)
 }
